@@ -4,7 +4,7 @@ import pickle
 
 from hypothesis import strategies as st
 
-from .. import gen, model, norm
+from .. import gen, model, norm, walk
 from ..common import lib
 from ..core import require
 from ..spec import build, kinds, relabeled, walk_spec
@@ -129,6 +129,7 @@ def check(case):
         i = s % (len(items) - 1)
         items[i : i + 2] = [_merge(items[i], items[i + 1], case["merge_api"])]
     reduced = items[0]
+    walk.require_views(reduced, "the reduction")
     if "reload" in case.get("detour", []):
         # a JSON reload keeps content but may lose quantity names (C04's business): compare content only
         dwhole = doc(whole, names=False)
